@@ -303,6 +303,10 @@ def register(R):
                'notified_all(self._iterator_queue._dequeue_lock)'],
       bounded='bounded_queue_threads'))
 
+  import importlib.util as _ilu, os as _os
+  _sp = _ilu.spec_from_file_location('mux_common', _os.path.join(_os.path.dirname(__file__), 'mux_common.py'))
+  _mux_common = _ilu.module_from_spec(_sp); _sp.loader.exec_module(_mux_common)
+  _mux_common.register(R, PROPS)
   R.cls('MultiplexIterator', dict(_iterator='iter[obj]', _thread_pool='obj?', _name='str'))
 
   @R.spec
